@@ -322,14 +322,47 @@ pub fn mesh_mesh(a: &Placed, b: &Placed, cutoff: f64) -> PairResult {
     let mut best2 = f64::INFINITY;
     let mut pierce: f64 = 0.0;
     let mut intersects = false;
-    let cut2 = cutoff * cutoff;
+    // distances beyond `far` need not be resolved: the caller only compares with thresholds <= cutoff
+    let far = 2.0 * cutoff + 0.01;
+    let far2 = far * far;
+    // whole-mesh bounding boxes first
+    let bb = |t: &Vec<PTri>| {
+        let mut lo = [f64::INFINITY; 3];
+        let mut hi = [f64::NEG_INFINITY; 3];
+        for x in t {
+            for k in 0..3 {
+                lo[k] = lo[k].min(x.lo[k]);
+                hi[k] = hi[k].max(x.hi[k]);
+            }
+        }
+        (lo, hi)
+    };
+    let (alo, ahi) = bb(&a.tris);
+    let (blo, bhi) = bb(&b.tris);
+    let mut gap2 = 0.0;
+    for k in 0..3 {
+        let d = (alo[k] - bhi[k]).max(blo[k] - ahi[k]).max(0.0);
+        gap2 += d * d;
+    }
+    if gap2 > far2 {
+        return PairResult { dist: f64::INFINITY, pierce: 0.0, intersects: false };
+    }
     for ta in &a.tris {
+        // skip triangles of a that are far from b's bounding box
+        let mut g2 = 0.0;
+        for k in 0..3 {
+            let d = (ta.lo[k] - bhi[k]).max(blo[k] - ta.hi[k]).max(0.0);
+            g2 += d * d;
+        }
+        if g2 > best2.min(far2) {
+            continue;
+        }
         for tb in &b.tris {
-            let lim = best2.min(cut2 * 4.0 + 1.0).sqrt();
-            if tb.lo[0] > ta.hi[0] + lim {
+            let lim2 = best2.min(far2);
+            if tb.lo[0] > ta.hi[0] + lim2.sqrt() {
                 break; // sorted by lo.x: all following are farther in x
             }
-            if aabb_d2(ta, tb) > best2 {
+            if aabb_d2(ta, tb) > lim2 {
                 continue;
             }
             let (d2, p) = tri_tri(ta, tb);
